@@ -619,6 +619,21 @@ def drain_error_propagates(ctx, P):
     ctx.floor(P + ':S17-4:drain-error:floor', 'drain() calls on packet bodies', n, 9)
 
 
+def packet_parser_always_drains(ctx, P):
+    """`Packet::from_reader` is the one place that consumes the rest of a body the type-specific parser did not read (refused packet
+    types included): the packet iterator continues with the next header right behind it, also after an `Err` item.  No return of
+    `Packet::from_reader` - successful or not - is reachable without passing the `drain()` of the body."""
+    b = ctx.body('packet::packet_sum::Packet::from_reader')
+    if b is None:
+        ctx.missing(P + ':S17-4:packet-parser-always-drains', 'Packet::from_reader not found')
+        return
+    ds = [i for i, t in b.calls(r'BufReadParsing::drain$|PacketBodyReader::<.*>::drain$')]
+    wit = b.find_path(0, set(b.returns()), removed=frozenset(ds)) if ds else [0]
+    ctx.check(P + ':S17-4:packet-parser-always-drains', 'R-dom', 'every return of Packet::from_reader has passed the drain of the packet body',
+              bool(ds) and wit is None, function=b.path, witness=fmt_path(b, wit) if (wit and ds) else None,
+              missing=None if (ds and wit is None) else 'a return is reachable without draining the body: after such an Err the packet iterator reads the next header from inside this body')
+
+
 def packet_bodies_through_body_reader(ctx, P):
     """`PacketBodyReader` is the one reader that enforces the framing of a body (a fixed-length body that ends early is an error, partial
     chunks are followed, indeterminate lengths run to the end).  The generic packet parser `Packet::from_reader` must only ever be
@@ -761,6 +776,7 @@ def run(ctx):
     illegal_framing_stops_the_parser(ctx, P)
     message_parser_consumes_bodies(ctx, P)
     drain_error_propagates(ctx, P)
+    packet_parser_always_drains(ctx, P)
     packet_bodies_through_body_reader(ctx, P)
     running_offset_emitters(ctx, P)
     legacy_header_self_consistent(ctx, P)
